@@ -32,6 +32,20 @@ func NewErrUnkownStatement(name string) error {
 	return psqlerr.WithSeverity(psqlerr.WithCode(err, codes.InvalidPreparedStatementDefinition), psqlerr.LevelFatal)
 }
 
+// ErrInvalidFormatCode is returned whenever a Bind message carries a format
+// code other than text (0) or binary (1).
+var ErrInvalidFormatCode = psqlerr.WithCode(errors.New("invalid format code"), codes.ProtocolViolation)
+
+// checkFormatCode rejects the format codes the type map is unable to handle
+// (it panics on anything but text and binary).
+func checkFormatCode(format uint16) error {
+	if FormatCode(format) != TextFormat && FormatCode(format) != BinaryFormat {
+		return fmt.Errorf("%w: %d", ErrInvalidFormatCode, format)
+	}
+
+	return nil
+}
+
 // NewErrUndefinedStatement is returned whenever no statement has been defined
 // within the incoming query.
 func NewErrUndefinedStatement() error {
@@ -453,11 +467,19 @@ func (srv *Session) handleBind(ctx context.Context, reader *buffer.Reader, write
 	}
 
 	parameters, err := srv.readParameters(ctx, reader)
+	if errors.Is(err, ErrInvalidFormatCode) {
+		return srv.extendedError(writer, err)
+	}
+
 	if err != nil {
 		return err
 	}
 
 	formats, err := srv.readColumnTypes(reader)
+	if errors.Is(err, ErrInvalidFormatCode) {
+		return srv.extendedError(writer, err)
+	}
+
 	if err != nil {
 		return err
 	}
@@ -500,6 +522,11 @@ func (srv *Session) readParameters(ctx context.Context, reader *buffer.Reader) (
 	formats := make([]FormatCode, length)
 	for i := uint16(0); i < length; i++ {
 		format, err := reader.GetUint16()
+		if err != nil {
+			return nil, err
+		}
+
+		err = checkFormatCode(format)
 		if err != nil {
 			return nil, err
 		}
@@ -564,6 +591,11 @@ func (srv *Session) readColumnTypes(reader *buffer.Reader) ([]FormatCode, error)
 	columns := make([]FormatCode, length)
 	for i := uint16(0); i < length; i++ {
 		format, err := reader.GetUint16()
+		if err != nil {
+			return nil, err
+		}
+
+		err = checkFormatCode(format)
 		if err != nil {
 			return nil, err
 		}
